@@ -260,10 +260,23 @@ fn run(id: &str, tier_s: &str) -> i32 {
         Tier::Quick => 900,
         Tier::Thorough => 6 * 3600,
     });
-    let mut child = Command::new(&exe)
-        .args(["worker", id, tier_s, &seed.to_string(), &out, &infl])
-        .spawn()
-        .expect("spawn worker");
+    // C04 compares the outputs of several processes: the first worker records a digest per
+    // case, the extra workers (same seed, hence the same cases) compare with it
+    let digest = format!("{}/c04.digest", dir);
+    let extra_procs: usize = if id == "C04" {
+        std::env::var("VERIF_C04_PROCS").ok().and_then(|s| s.parse().ok()).unwrap_or(match tier {
+            Tier::Quick => 4,
+            Tier::Thorough => 8,
+        }) - 1
+    } else {
+        0
+    };
+    let mut cmd = Command::new(&exe);
+    cmd.args(["worker", id, tier_s, &seed.to_string(), &out, &infl]);
+    if id == "C04" {
+        cmd.env("VERIF_C04_OUT", &digest);
+    }
+    let mut child = cmd.spawn().expect("spawn worker");
     let status = loop {
         match child.try_wait() {
             Ok(Some(s)) => break Some(s),
@@ -328,6 +341,44 @@ fn run(id: &str, tier_s: &str) -> i32 {
             }
             if !found {
                 infra = Some(format!("worker died ({:?}) and no in-flight case reproduces it", s));
+            }
+        }
+    }
+
+    // extra processes of C04
+    if infra.is_none() && violations.is_empty() {
+        for k in 0..extra_procs {
+            let outk = format!("{}/worker{}.json", dir, k + 1);
+            let inflk = format!("{}/inflight{}", dir, k + 1);
+            let st = Command::new(&exe)
+                .args(["worker", id, tier_s, &seed.to_string(), &outk, &inflk])
+                .env("VERIF_C04_REF", &digest)
+                .status();
+            match st {
+                Ok(s) if s.success() => match std::fs::read_to_string(&outk).ok().and_then(|t| serde_json::from_str::<Value>(&t).ok()) {
+                    Some(v) => {
+                        let stk = stats_from_json(&v["stats"]);
+                        *stats.classes.entry("processes".into()).or_insert(1) += 1;
+                        stats.merge(stk);
+                        if let Some(a) = v["violations"].as_array() {
+                            for x in a {
+                                let viol = viol_from_json(x);
+                                if viol.sig.starts_with("harness:") {
+                                    infra = Some(format!("{}: {}", viol.sig, viol.detail));
+                                    continue;
+                                }
+                                if violations.iter().any(|(s, _)| *s == viol.sig) {
+                                    continue;
+                                }
+                                let p = save_replay(&root, id, &viol);
+                                eprintln!("--- violation {} (process {}) ---\n{}\n{}", viol.sig, k + 2, viol.detail, viol.rendered);
+                                violations.push((viol.sig.clone(), p));
+                            }
+                        }
+                    }
+                    None => infra = Some(format!("extra worker {} produced no result file", k + 1)),
+                },
+                _ => infra = Some(format!("extra worker {} died", k + 1)),
             }
         }
     }
